@@ -52,44 +52,6 @@ func acctmodAbsFiles(paths ...string) []*ast.File {
 	return files
 }
 
-// switchTable extracts `case A, B: <body>` clauses of the first switch in fd
-// whose tag prints as tag; body statements are handed to f.
-func acctmodSwitchClauses(fd *ast.FuncDecl, tag string) []*ast.CaseClause {
-	var res []*ast.CaseClause
-	if fd == nil {
-		return nil
-	}
-	ast.Inspect(fd.Body, func(n ast.Node) bool {
-		sw, ok := n.(*ast.SwitchStmt)
-		if !ok || res != nil || sw.Tag == nil || exprString(sw.Tag) != tag {
-			return true
-		}
-		for _, st := range sw.Body.List {
-			res = append(res, st.(*ast.CaseClause))
-		}
-		return false
-	})
-	return res
-}
-
-// acctmodEstimatorCalls lists the `weightEstimator.AddXxx()` methods called in stmts.
-func acctmodEstimatorCalls(stmts []ast.Stmt) []string {
-	var res []string
-	for _, st := range stmts {
-		ast.Inspect(st, func(n ast.Node) bool {
-			if c, ok := n.(*ast.CallExpr); ok {
-				if s, ok := c.Fun.(*ast.SelectorExpr); ok &&
-					exprString(s.X) == "weightEstimator" {
-
-					res = append(res, s.Sel.Name)
-				}
-			}
-			return true
-		})
-	}
-	return res
-}
-
 // genAcctMod emits the constants, witness-size table and output-type switch
 // tables of account/manager.go + account/interfaces.go consumed by the C07
 // model, plus the lnd input/chainfee constants they are computed from (read
@@ -136,49 +98,53 @@ func genAcctMod() {
 	}
 	l.p("def FeePerKwFloor : Nat := %s", intConst(fce, "lnd/chainfee", "FeePerKwFloor"))
 
-	// witnessType.witnessSize switch: witness type value -> size.
+	isRecvOrWt := func(n *acctmodNorm, tag ast.Expr) bool {
+		t := n.s(tag)
+		return t == "$recv" || t == "$wt"
+	}
+	isClass := func(n *acctmodNorm, tag ast.Expr) bool {
+		return strings.HasSuffix(n.s(tag), ".Class()")
+	}
+
+	// witnessType.witnessSize: witness type value -> size.
 	var rows []string
-	for _, cc := range acctmodSwitchClauses(findFunc(acct, "witnessType.witnessSize"), "wt") {
-		if cc.List == nil {
+	wsCases, _ := acctmodFindCases(acct, findFunc(acct, "witnessType.witnessSize"), 1, isRecvOrWt)
+	for _, cc := range wsCases {
+		var size ast.Expr
+		for _, st := range cc.body {
+			if ret, ok := st.(*ast.ReturnStmt); ok && len(ret.Results) == 2 &&
+				exprString(ret.Results[1]) == "nil" {
+
+				size = ret.Results[0]
+			}
+		}
+		if size == nil {
+			fail("witnessSize: case without `return <size>, nil`")
 			continue
 		}
-		if len(cc.Body) != 1 {
-			fail("witnessSize: unexpected case body")
-			continue
-		}
-		ret, ok := cc.Body[0].(*ast.ReturnStmt)
-		if !ok || len(ret.Results) != 2 || exprString(ret.Results[1]) != "nil" {
-			fail("witnessSize: unexpected return")
-			continue
-		}
-		sel, ok := ret.Results[0].(*ast.SelectorExpr)
-		if !ok || exprString(sel.X) != "poolscript" {
-			fail("witnessSize: unexpected size expression %s", exprString(ret.Results[0]))
-			continue
-		}
-		for _, e := range cc.List {
-			rows = append(rows, fmt.Sprintf("(%s, %s)", intConst(ace, "account", exprString(e)),
-				intConst(ps, "poolscript", sel.Sel.Name)))
+		for _, e := range cc.consts {
+			rows = append(rows, fmt.Sprintf("(%s, %s)", intConst(ace, "account", acctmodConstName(e)),
+				intConst(ps, "poolscript", acctmodConstName(size))))
 		}
 	}
 	sort.Strings(rows)
 	if len(rows) == 0 {
-		fail("witnessSize switch not found")
+		fail("witnessSize case list not found")
 	}
 	l.p("/-- `witnessType.witnessSize`: witness type -> estimated witness size -/")
 	l.p("def witnessSizeTable : List (Nat × Nat) := [%s]", strings.Join(rows, ", "))
 
 	// witnessType.IsExpirySpend: the witness types taking the expiry path.
 	rows = nil
-	for _, cc := range acctmodSwitchClauses(findFunc(acct, "witnessType.IsExpirySpend"), "wt") {
-		if cc.List == nil || len(cc.Body) != 1 {
-			continue
-		}
-		if ret, ok := cc.Body[0].(*ast.ReturnStmt); ok && len(ret.Results) == 1 &&
-			exprString(ret.Results[0]) == "true" {
+	ieCases, _ := acctmodFindCases(acct, findFunc(acct, "witnessType.IsExpirySpend"), 1, isRecvOrWt)
+	for _, cc := range ieCases {
+		for _, st := range cc.body {
+			if ret, ok := st.(*ast.ReturnStmt); ok && len(ret.Results) == 1 &&
+				exprString(ret.Results[0]) == "true" {
 
-			for _, e := range cc.List {
-				rows = append(rows, intConst(ace, "account", exprString(e)))
+				for _, e := range cc.consts {
+					rows = append(rows, intConst(ace, "account", acctmodConstName(e)))
+				}
 			}
 		}
 	}
@@ -201,46 +167,49 @@ func genAcctMod() {
 		fail("lnd TxWeightEstimator.%s: no outputSize += const", method)
 		return "0"
 	}
-
-	// valueAfterAccountUpdate: output script class -> output size added.
-	rows = nil
-	for _, cc := range acctmodSwitchClauses(findFunc(acct, "valueAfterAccountUpdate"), "pkScript.Class()") {
-		if cc.List == nil {
-			continue
+	outputAdds := func(stmts []ast.Stmt) []string {
+		var r []string
+		for _, c := range acctmodAddCalls(stmts) {
+			if strings.HasSuffix(c, "Output") {
+				r = append(r, c)
+			}
 		}
-		calls := acctmodEstimatorCalls(cc.Body)
+		return r
+	}
+
+	// valueAfterAccountUpdate (or a helper it calls): output script class ->
+	// output size added.
+	rows = nil
+	vauCases, _ := acctmodFindCases(acct, findFunc(acct, "valueAfterAccountUpdate"), 2, isClass)
+	for _, cc := range vauCases {
+		calls := outputAdds(cc.body)
 		if len(calls) != 1 {
 			fail("valueAfterAccountUpdate: case without exactly one estimator call")
 			continue
 		}
-		for _, e := range cc.List {
-			rows = append(rows, fmt.Sprintf("(%q, %s)", strings.TrimPrefix(exprString(e), "txscript."),
-				addSize(calls[0])))
+		for _, e := range cc.consts {
+			rows = append(rows, fmt.Sprintf("(%q, %s)", acctmodConstName(e), addSize(calls[0])))
 		}
 	}
 	sort.Strings(rows)
 	if len(rows) == 0 {
-		fail("valueAfterAccountUpdate switch not found")
+		fail("valueAfterAccountUpdate: per-class output weights not found")
 	}
 	l.p("/-- `valueAfterAccountUpdate`: supported output class -> size added to the estimator -/")
 	l.p("def vauOutputSwitch : List (String × Nat) := [%s]", strings.Join(rows, ", "))
 
 	// OutputWithFee.CloseOutputs: class -> (output size added, dust script size).
 	rows = nil
-	for _, cc := range acctmodSwitchClauses(findFunc(acct, "OutputWithFee.CloseOutputs"), "pkScript.Class()") {
-		if cc.List == nil {
-			continue
-		}
-		calls := acctmodEstimatorCalls(cc.Body)
+	coCases, _ := acctmodFindCases(acct, findFunc(acct, "OutputWithFee.CloseOutputs"), 2, isClass)
+	for _, cc := range coCases {
+		calls := outputAdds(cc.body)
 		dust := ""
-		for _, st := range cc.Body {
+		for _, st := range cc.body {
 			ast.Inspect(st, func(n ast.Node) bool {
-				if c, ok := n.(*ast.CallExpr); ok &&
-					exprString(c.Fun) == "lnwallet.DustLimitForSize" && len(c.Args) == 1 {
+				if c, ok := n.(*ast.CallExpr); ok && len(c.Args) == 1 &&
+					acctmodConstName(c.Fun) == "DustLimitForSize" {
 
-					if s, ok := c.Args[0].(*ast.SelectorExpr); ok {
-						dust = intConst(ice, "lnd/input", s.Sel.Name)
-					}
+					dust = intConst(ice, "lnd/input", acctmodConstName(c.Args[0]))
 				}
 				return true
 			})
@@ -249,33 +218,25 @@ func genAcctMod() {
 			fail("CloseOutputs: case without one estimator call and a dust limit")
 			continue
 		}
-		for _, e := range cc.List {
-			rows = append(rows, fmt.Sprintf("(%q, %s, %s)", strings.TrimPrefix(exprString(e), "txscript."),
-				addSize(calls[0]), dust))
+		for _, e := range cc.consts {
+			rows = append(rows, fmt.Sprintf("(%q, %s, %s)", acctmodConstName(e), addSize(calls[0]), dust))
 		}
 	}
 	sort.Strings(rows)
 	if len(rows) == 0 {
-		fail("CloseOutputs switch not found")
+		fail("CloseOutputs: per-class output weights not found")
 	}
 	l.p("/-- `OutputWithFee.CloseOutputs`: class -> (output size added, script size handed to DustLimitForSize) -/")
 	l.p("def closeOutputSwitch : List (String × Nat × Nat) := [%s]", strings.Join(rows, ", "))
 
-	// addBaseAccountModificationWeight: the account output is added as ...
+	// addBaseAccountModificationWeight: one witness input + one output of ...
 	base := findFunc(acct, "addBaseAccountModificationWeight")
 	baseOut := "0"
 	if base != nil {
-		calls := []string{}
-		ast.Inspect(base.Body, func(n ast.Node) bool {
-			if c, ok := n.(*ast.CallExpr); ok {
-				if s, ok := c.Fun.(*ast.SelectorExpr); ok && exprString(s.X) == "weightEstimator" {
-					calls = append(calls, s.Sel.Name)
-				}
-			}
-			return true
-		})
-		if len(calls) == 2 && calls[0] == "AddWitnessInput" {
-			baseOut = addSize(calls[1])
+		calls := acctmodAddCalls(base.Body.List)
+		sort.Strings(calls)
+		if len(calls) == 2 && calls[1] == "AddWitnessInput" {
+			baseOut = addSize(calls[0])
 		} else {
 			fail("addBaseAccountModificationWeight: unexpected estimator calls %v", calls)
 		}
@@ -285,142 +246,150 @@ func genAcctMod() {
 	l.p("/-- size of the re-created account output added by `addBaseAccountModificationWeight` -/")
 	l.p("def baseAccountOutputSize : Nat := %s", baseOut)
 
-	// validateAccountExpiry: is the window arithmetic widened to 64 bits?
+	// validateAccountExpiry: the two window comparisons, normalised; wide =
+	// both bounds are computed after widening to 64 bits.
 	ve := findFunc(acct, "validateAccountExpiry")
-	wide := true
-	nCmp, nAdd := 0, 0
-	if ve != nil {
-		ast.Inspect(ve.Body, func(n ast.Node) bool {
-			switch x := n.(type) {
-			case *ast.IfStmt:
-				if b, ok := x.Cond.(*ast.BinaryExpr); ok &&
-					(b.Op == token.LSS || b.Op == token.GTR) {
-
-					nCmp++
-				}
-			case *ast.BinaryExpr:
-				// every sum involving bestHeight must be taken
-				// after widening it to 64 bits
-				if x.Op == token.ADD && strings.Contains(exprString(x), "bestHeight") {
-					nAdd++
-					if !strings.Contains(exprString(x), "int64(bestHeight)") {
-						wide = false
-					}
-				}
+	wide := false
+	if ve == nil {
+		fail("validateAccountExpiry not found")
+	} else {
+		n := acctmodNewNorm(ve)
+		var cs []string
+		for _, d := range acctmodDecisions(ve.Body) {
+			if acctmodReturnsError(d.body) {
+				cs = append(cs, n.s(d.cond))
 			}
-			return true
-		})
-	}
-	if nAdd < 2 {
-		fail("validateAccountExpiry: window sums not found")
-	}
-	if ve == nil || nCmp != 2 {
-		fail("validateAccountExpiry: expected two window comparisons")
+		}
+		strip := strings.NewReplacer("(", "", ")", "", "uint64", "w64", "int64", "w64")
+		for i := range cs {
+			cs[i] = strip.Replace(cs[i])
+		}
+		sort.Strings(cs)
+		got := strings.Join(cs, " ; ")
+		switch got {
+		case "$u32_1 < $u32_2 + minAccountExpiry ; $u32_2 + maxAccountExpiry < $u32_1":
+			wide = false
+		case "maxAccountExpiry + w64$u32_2 < w64$u32_1 ; w64$u32_1 < minAccountExpiry + w64$u32_2":
+			wide = true
+		default:
+			fail("validateAccountExpiry: unexpected window comparisons: %s", got)
+		}
 	}
 	l.p("/-- `validateAccountExpiry` computes `bestHeight + min/maxAccountExpiry` in 64 bits (no uint32 wrap) -/")
 	l.p("def expiryWindowWide : Bool := %s", leanBool(wide))
+
 	// DepositAccount: is the new value checked against MinAccountValue?
 	dep := findFunc(acct, "manager.DepositAccount")
 	depMin := false
 	if dep == nil {
 		fail("DepositAccount not found")
 	} else {
-		ast.Inspect(dep.Body, func(n ast.Node) bool {
-			if is, ok := n.(*ast.IfStmt); ok {
-				c := canonCmp(is.Cond)
-				if c == "newAccountValue < MinAccountValue" {
-					depMin = true
-				}
+		n := acctmodNewNorm(dep)
+		for _, d := range acctmodDecisions(dep.Body) {
+			c := n.s(d.cond)
+			if strings.HasSuffix(c, " < MinAccountValue") && strings.Contains(c, ".Value") &&
+				strings.Contains(c, "$amt") &&
+				acctmodReturnsError(d.body) {
+
+				depMin = true
 			}
-			return true
-		})
+		}
 	}
 	l.p("/-- `DepositAccount` refuses a new value below `MinAccountValue` -/")
 	l.p("def depositChecksMin : Bool := %s", leanBool(depMin))
+
 	// WithdrawAccount: are outputs paying to the new account script refused?
+	// (a loop over the requested outputs refusing when bytes.Equal of two
+	// PkScripts holds)
 	wd := findFunc(acct, "manager.WithdrawAccount")
 	own := false
 	if wd == nil {
 		fail("WithdrawAccount not found")
 	} else {
-		ast.Inspect(wd.Body, func(n ast.Node) bool {
-			rs, ok := n.(*ast.RangeStmt)
-			if !ok || exprString(rs.X) != "outputs" {
+		n := acctmodNewNorm(wd)
+		ast.Inspect(wd.Body, func(x ast.Node) bool {
+			rs, ok := x.(*ast.RangeStmt)
+			if !ok || n.s(rs.X) != "$outs" {
 				return true
 			}
-			ast.Inspect(rs.Body, func(m ast.Node) bool {
-				if is, ok := m.(*ast.IfStmt); ok &&
-					exprString(is.Cond) == "bytes.Equal(out.PkScript, newAccountOutput.PkScript)" &&
-					len(is.Body.List) == 1 {
+			for _, d := range acctmodDecisions(rs.Body) {
+				c, ok := d.cond.(*ast.CallExpr)
+				if ok && exprString(c.Fun) == "bytes.Equal" && len(c.Args) == 2 &&
+					strings.HasSuffix(exprString(c.Args[0]), ".PkScript") &&
+					strings.HasSuffix(exprString(c.Args[1]), ".PkScript") &&
+					acctmodReturnsError(d.body) {
 
-					if _, ok := is.Body.List[0].(*ast.ReturnStmt); ok {
-						own = true
-					}
+					own = true
 				}
-				return true
-			})
+			}
 			return true
 		})
 	}
 	l.p("/-- `WithdrawAccount` refuses a requested output that pays to the new account script -/")
 	l.p("def withdrawRefusesOwnScript : Bool := %s", leanBool(own))
 
-	// determineWitnessType: the condition under which the expiry path is
-	// taken (all `if`s of the function, canonicalised, deduplicated).
+	// determineWitnessType: the distinct conditions (normalised, locals
+	// inlined) under which an expiry witness type is returned.
 	dw := findFunc(acct, "determineWitnessType")
 	var conds []string
 	if dw == nil {
 		fail("determineWitnessType not found")
 	} else {
+		n := acctmodNewNorm(dw)
 		seen := map[string]bool{}
-		ast.Inspect(dw.Body, func(n ast.Node) bool {
-			if is, ok := n.(*ast.IfStmt); ok {
-				c := canonCmp(is.Cond)
-				if !seen[c] {
-					seen[c] = true
-					conds = append(conds, c)
+		for _, d := range acctmodDecisions(dw.Body) {
+			exp := false
+			for _, st := range d.body {
+				if r, ok := st.(*ast.ReturnStmt); ok && len(r.Results) == 1 &&
+					strings.HasPrefix(exprString(r.Results[0]), "expiry") {
+
+					exp = true
 				}
 			}
-			return true
-		})
-		nAssign := 0
-		ast.Inspect(dw.Body, func(n ast.Node) bool {
-			if _, ok := n.(*ast.AssignStmt); ok {
-				nAssign++
+			c := n.s(d.cond)
+			if exp && !seen[c] {
+				seen[c] = true
+				conds = append(conds, c)
 			}
-			return true
-		})
-		if nAssign > 0 {
-			conds = append(conds, "<local variables>")
 		}
+		sort.Strings(conds)
 	}
-	l.p("/-- `determineWitnessType`: the distinct `if` conditions selecting the expiry witness -/")
+	l.p("/-- `determineWitnessType`: the distinct conditions selecting the expiry witness -/")
 	l.p("def expiredConds : List String := %s", leanStrList(conds))
 
-	// spendAccount: lock time per witness type (`lockTime = X` in each case).
+	// spendAccount: lock time per witness type: "best" (the height parameter),
+	// "zero", or the normalised expression.
 	sp := findFunc(acct, "manager.spendAccount")
 	var lrows []string
-	for _, cc := range acctmodSwitchClauses(sp, "witnessType") {
-		if cc.List == nil {
-			continue
-		}
-		lt := ""
-		for _, st := range cc.Body {
-			if as, ok := st.(*ast.AssignStmt); ok && len(as.Lhs) == 1 &&
-				exprString(as.Lhs[0]) == "lockTime" {
+	ltCases, owner := acctmodFindCases(acct, sp, 1, isRecvOrWt)
+	if owner != nil {
+		n := acctmodNewNorm(owner)
+		for _, cc := range ltCases {
+			lt := ""
+			for _, st := range cc.body {
+				if as, ok := st.(*ast.AssignStmt); ok && as.Tok == token.ASSIGN &&
+					len(as.Lhs) == 1 && len(as.Rhs) == 1 {
 
-				lt = exprString(as.Rhs[0])
+					switch v := n.s(as.Rhs[0]); v {
+					case "$u32":
+						lt = "best"
+					case "0":
+						lt = "zero"
+					default:
+						lt = v
+					}
+				}
 			}
-		}
-		for _, e := range cc.List {
-			lrows = append(lrows, fmt.Sprintf("(%s, %q)", intConst(ace, "account", exprString(e)), lt))
+			for _, e := range cc.consts {
+				lrows = append(lrows, fmt.Sprintf("(%s, %q)", intConst(ace, "account", acctmodConstName(e)), lt))
+			}
 		}
 	}
 	sort.Strings(lrows)
 	if len(lrows) == 0 {
-		fail("spendAccount lock time switch not found")
+		fail("spendAccount lock time case list not found")
 	}
-	l.p("/-- `spendAccount`: witness type -> expression assigned to the lock time -/")
+	l.p("/-- `spendAccount`: witness type -> lock time (`best` = the best-height parameter, `zero`) -/")
 	l.p("def lockTimeSwitch : List (Nat × String) := [%s]", strings.Join(lrows, ", "))
 	l.p("end Pool.Gen.C07")
 }
